@@ -56,12 +56,14 @@ impl Default for TargetCfg {
 }
 
 pub fn random_name(rng: &mut Rng) -> Vec<u8> {
-    match rng.below(8) {
+    match rng.below(11) {
         0 => Vec::new(),
         1 => b"  ".to_vec(),
         2 => "thr\u{e9}\u{e4}d-\u{4e16}".as_bytes().to_vec(),
         3 => b"fifteen-chars-xx".to_vec(),
         4 => b"trail  ".to_vec(),
+        6 => "\u{1F980}crab".as_bytes().to_vec(),
+        7 => "ab\u{1D54F}\u{1F980}".as_bytes().to_vec(),
         5 => " lead".as_bytes().to_vec(),
         _ => {
             let n = rng.range(1, 15) as usize;
